@@ -31,6 +31,11 @@ PROPS = {
     'C06': dict(engine='codec', modes=['cap'], witness=False, values=(10, 150)),
     'C10': dict(engine='codec', modes=['fault'], witness=False, values=(10, 150)),
     'C11': dict(engine='codec', modes=['prior'], witness=False, values=(8, 100)),
+    # engine 'util': harness/util_main.cpp (single binary); the model is the contract itself
+    'C16': dict(engine='util', modes=['rseq', 'wseq'], witness=True),
+    'C17': dict(engine='util', modes=['rseq', 'wseq'], witness=True),
+    'C18': dict(engine='util', modes=['sip'], witness=True),
+    'C20': dict(engine='util', modes=['endian'], witness=True),
 }
 
 
@@ -65,7 +70,9 @@ class Run:
 
     # ---- stage 1: proof obligations ----------------------------------------------------
     def lean_stage(self):
-        names = load_obligations().get(self.pid, [])
+        obl = load_obligations()
+        names = list(obl.get(self.pid, []))
+        gen_names = list(obl.get('_generated', {}).get(self.pid, []))
         try:
             import extract
             extract.generate()
@@ -95,9 +102,23 @@ class Run:
             self.violations.append(dict(what='lake build failed: a proof obligation or the model no longer checks', input=None, log=e.log[-6000:]))
             # a stale driver from an earlier build may still exist; do not use it
             return
+        gen_import = ''
+        if gen_names:
+            # constants regenerated from /repo: a separate target, so that a changed enumerator,
+            # table or key breaks exactly the properties that depend on it
+            p = subprocess.run(['lake', 'build', 'NopModel.Properties.Generated'], cwd=nv.LEAN, stdout=subprocess.PIPE,
+                               stderr=subprocess.STDOUT, text=True)
+            if p.returncode != 0:
+                for n in gen_names:
+                    self.obligations.append((n, False, 'NopModel.Properties.Generated does not build'))
+                self.violations.append(dict(what='constants extracted from /repo no longer match the model (NopModel/Properties/Generated.lean): '
+                                            + ' '.join(l for l in p.stdout.split('\n') if 'error' in l)[:600], input=None, log=p.stdout[-4000:]))
+            else:
+                names = names + gen_names
+                gen_import = 'import NopModel.Properties.Generated\n'
         if not names:
             return
-        audit = 'import NopModel\n' + ''.join('#print axioms %s\n' % n for n in names)
+        audit = 'import NopModel\n' + gen_import + ''.join('#print axioms %s\n' % n for n in names)
         ap = os.path.join(nv.BUILD, 'audit_%s.lean' % self.pid)
         with open(ap, 'w') as f:
             f.write(audit)
@@ -123,8 +144,32 @@ class Run:
         eng = self.cfg['engine']
         if eng == 'codec':
             self.codec_stage()
+        elif eng == 'util':
+            self.util_stage()
         else:
             getattr(__import__('engines'), eng)(self)
+
+    def util_stage(self):
+        binary = nv.build_util()
+        evaluations = 0
+        distinct = set()
+        for mode in self.cfg['modes']:
+            args = ['--mode', mode, '--seed', str(self.seed)]
+            if self.tier == 'thorough':
+                args.append('--thorough')
+            streams = nv.run_shards([binary], args)
+            self.absorb(streams, 'util/' + mode)
+            for s in streams:
+                evaluations += len(s.pairs)
+                for (mi, r) in s.pairs:
+                    distinct.add(hash(s.m[mi]))
+                for (mi, r) in s.pairs[:2]:
+                    if len(self.samples) < 6:
+                        self.samples.append({'op': s.m[mi][:300], 'impl': r[:300]})
+        self.cov['evaluations'] = self.cov.get('evaluations', 0) + evaluations
+        self.cov['distinct_nontrivial'] = self.cov.get('distinct_nontrivial', 0) + len(distinct)
+        self.cov['rule'] = ('each evaluation is one call sequence / input executed on the real library and on the Lean model and '
+                            'compared; distinct = distinct operation lines (every sequence contains at least one primitive call)')
 
     def codec_stage(self):
         bins = nv.build_codec('a')
